@@ -97,9 +97,14 @@ type c09FaultPoint struct {
 }
 
 var (
+	// Only errnos that report a FAILURE are injected. Errnos that state a fact about the
+	// filesystem (ENOENT, EEXIST, ENOTDIR, ELOOP, ENOTEMPTY) would make strace lie to the code:
+	// e.g. ENOENT from fstatat of an existing directory entry legitimately means "vanished
+	// concurrently" to Directory.ReadContents, and the result then cannot describe the disk.
+	// EXDEV (and the renameat2 capability errnos) are the exception the property names.
 	c09BaseErrnos    = []string{"EIO", "EACCES", "ENOSPC"}
-	c09SpecialErrnos = []string{"ENOENT", "EEXIST", "EINTR", "EPERM", "ENOTDIR", "ELOOP"}
-	c09RenameErrnos  = []string{"EXDEV", "EINVAL", "ENOSYS", "ENOTSUP"}
+	c09SpecialErrnos = []string{"EPERM", "EINTR", "EROFS", "ENOMEM", "EDQUOT"}
+	c09RenameErrnos  = []string{"EXDEV", "EINVAL", "ENOSYS", "EOPNOTSUPP"}
 )
 
 func isRename(name string) bool {
@@ -126,7 +131,7 @@ func c09() {
 		r.Inconclusive("strace-not-available")
 		r.Finish("strace is required for fault enumeration", 10)
 	}
-	plans := r.Pick(15, 300)
+	plans := r.Pick(12, 300)
 	workers := 16
 
 	q := newWorkQueue(workers)
@@ -155,6 +160,7 @@ func c09() {
 					"the child running core.Transition ended without a verdict (crash in the code under test?)", witness)
 			} else {
 				r.Inconclusive("child-failed-outside-bracket")
+				fmt.Printf("C09 inconclusive (%s): child failed outside the bracket: %v; stderr: %s\n", label, run.Err, firstLine(run.Stderr))
 			}
 			return
 		}
@@ -320,10 +326,13 @@ func c09() {
 				fp := fps[i]
 				var errnos []string
 				if r.Quick() {
-					errnos = append(errnos, c09BaseErrnos[(i+errnoShift)%len(c09BaseErrnos)])
-					errnos = append(errnos, c09SpecialErrnos[(i+errnoShift)%len(c09SpecialErrnos)])
+					all := append(append([]string{}, c09BaseErrnos...), c09SpecialErrnos...)
+					errnos = append(errnos, all[(i+errnoShift)%len(all)])
 					if isRename(fp.Name) {
-						errnos = append(errnos, "EXDEV", c09RenameErrnos[1+(i+errnoShift)%(len(c09RenameErrnos)-1)])
+						errnos = append(errnos, "EXDEV")
+					}
+					if fp.Name == "renameat2" {
+						errnos = append(errnos, c09RenameErrnos[1+(i+errnoShift)%(len(c09RenameErrnos)-1)])
 					}
 				} else {
 					errnos = append(errnos, c09BaseErrnos...)
@@ -396,7 +405,7 @@ func c09() {
 		})
 	}
 	// Randomly timed cancellation during a large removal.
-	timed := r.Pick(12, 200)
+	timed := r.Pick(8, 200)
 	trng := r.Rand("cancel-timer")
 	for i := 0; i < timed; i++ {
 		s := c09Spec{Seed: r.Seed, Plan: 100000 + i%5, Mode: "cancel-timer", K: trng.Intn(40000)}
